@@ -6,13 +6,15 @@ from valpool import *
 ID = "C28"
 GEN = ["Units"]
 THEOREMS = ["C28_index_of", "C28_nth", "C28_set_nth", "C28_append", "C28_join", "C28_index", "C28_zip",
-            "C28_length_separator_bracketed", "C28_map_as_pairs", "C28_refines", "C28_refuted_index_arglist"]
+            "C28_length_separator_bracketed", "C28_map_as_pairs", "C28_refines", "C28_list_eq", "C28_short_list_sep_matters",
+            "C28_refuted_index_arglist"]
 COQ_HEADER = ("From Coq Require Import String List NArith ZArith.\nFrom RV Require Import Model.CssStr Model.ValueLite Run.C28.\n"
               "Import ListNotations.\nLocal Open Scope list_scope.")
 RUN_EXPR = "Run.C28.run"
 RULE = ("one call of length/separator/is-bracketed/nth/set-nth/append/join/index/zip on generated values: lists of 0-6 items "
         "(numbers in several spellings, quoted/unquoted strings, null, booleans, nested lists and maps) with every "
-        "separator (space, comma, slash, none) x bracket combination that can be written, singleton values, maps of 0-3 "
+        "separator (space, comma, slash, none) x bracket combination that can be written or built (0- and 1-element lists with an "
+        "explicit separator through append/join; outer lists of such short lists searched by index; == between them in both orders), singleton values, maps of 0-3 "
         "entries, argument lists (through a `$a...` parameter); nth/set-nth with every index in [-len-2, len+2] plus huge "
         "ones; distinct = distinct call; non-trivial = the list argument is not a plain unbracketed space list")
 EXHAUSTIVE = {"quick": False, "thorough": False}
@@ -53,6 +55,32 @@ def rand_list(rng, maxn=6):
     return lst(items, sep, br)
 
 
+# 0- and 1-element lists that differ only in separator / brackets (== must tell them apart)
+def shorts():
+    out = []
+    for br in (False, True):
+        for sep in (None, "space", "comma", "slash"):
+            out.append(lst([], sep, br))
+            for x in (s("a"), num("1")):
+                if sep is None and not br:
+                    continue
+                out.append(lst([x], sep, br))
+    return out
+
+
+SHORTS = shorts()
+
+
+def rand_short_outer(rng):
+    """an outer list of 2-4 short lists (mostly the same content with different separators) and a probe among them"""
+    base = rng.choice([[], [s("a")], [num("1")]])
+    same = [v for v in SHORTS if v[1] == base]
+    n = rng.randint(2, 4)
+    items = [rng.choice(same) if rng.random() < 0.8 else rng.choice(SHORTS + [s("a"), s("b")]) for _ in range(n)]
+    probe = rng.choice(items[1:] if rng.random() < 0.7 else items + same)
+    return lst(items, rng.choice(["comma", "space"]), rng.random() < 0.3), probe
+
+
 def length_of(v):
     k = v[0]
     if k in ("list", "args"):
@@ -91,6 +119,20 @@ def gen_cases(ctx, tier):
         for i in rng.sample(range(-n - 2, n + 3), min(4, 2 * n + 5)):
             cases.append({"fn": "set_nth", "l": l, "n": i, "x": rng.choice(ITEMS)})
         cases.append({"fn": "nth", "l": l, "n": rng.choice([2 ** 31, -2 ** 31, 2 ** 53 + 1, -2 ** 63, 2 ** 63, 10 ** 19, 2 ** 32 + 1])})
+    # seeded change C28-1: the separator of a short list is part of its identity
+    SP1, CM1 = lst([s("a")], "space"), lst([s("a")], "comma")
+    cases += [{"fn": "index", "l": lst([SP1, CM1, s("b")], "comma"), "x": CM1},
+              {"fn": "index", "l": lst([lst([], "space"), lst([], "comma")], "comma"), "x": lst([], "comma")},
+              {"fn": "eq", "a": SP1, "b": CM1}, {"fn": "eq", "a": CM1, "b": SP1},
+              {"fn": "eq", "a": lst([], "space"), "b": lst([], None)}, {"fn": "eq", "a": lst([s("a")], None, True), "b": lst([s("a")], "space", True)}]
+    for _ in range(70 if tier == "quick" else 700):
+        outer, probe = rand_short_outer(rng)
+        cases.append({"fn": "index", "l": outer, "x": probe})
+        a, b = rng.choice(SHORTS), rng.choice(SHORTS)
+        if rng.random() < 0.6:
+            b = rng.choice([v for v in SHORTS if v[1] == a[1]])
+        cases.append({"fn": "eq", "a": a, "b": b})
+        cases.append({"fn": "eq", "a": b, "b": a})
     nr = 90 if tier == "quick" else 1200
     for _ in range(nr):
         cases.append({"fn": rng.choice(["length", "separator", "is_bracketed"]), "l": rand_list(rng)})
@@ -127,6 +169,8 @@ def opt_named(name, v):
 def program(c):
     """SCSS source; an argument list in first position is produced through a `$a...` parameter"""
     f = c["fn"]
+    if f == "eq":
+        return '@use "sass:list";\na {\n  r: inspect(' + src(c["a"]) + " == " + src(c["b"]) + ");\n}\n"
     first = c.get("l", c.get("l1"))
     la = "$a" if first is not None and first[0] == "args" else (src(first) if first is not None else None)
     if f == "length":
@@ -195,6 +239,8 @@ def call_term(c):
         return f"CIndex {coq(c['l'])} {coq(c['x'])}"
     if f == "zip":
         return f"CZip {clist([coq(v) for v in c['ls']])}"
+    if f == "eq":
+        return f"CEq {coq(c['a'])} {coq(c['b'])}"
     raise ValueError(f)
 
 
@@ -214,7 +260,7 @@ KCLASS = {0: None, 1: "known_C28_K1_index_arglist"}
 
 def judge(c, io, r):
     corr, cl, k = r
-    first = c.get("l", c.get("l1"))
+    first = c.get("l", c.get("l1", c.get("a")))
     plain = first is not None and first[0] == "list" and first[2] == "space" and not first[3]
     return {
         "corr": corr == 1 and io[0][0] in ("ok", "err"),
@@ -227,7 +273,7 @@ def judge(c, io, r):
 
 
 def shrink(c):
-    for key in ("l", "l1", "l2"):
+    for key in ("l", "l1", "l2", "a", "b"):
         v = c.get(key)
         if v is not None and v[0] in ("list", "args") and v[1]:
             for i in range(len(v[1])):
